@@ -1,4 +1,4 @@
-import BbRe.Lemmas.SchedLiveTimeout
+import BbRe.Lemmas.SchedLiveFuel
 /-!
 # C06 — failures time out, wake everyone, and leak nothing
 
@@ -156,6 +156,61 @@ theorem scheduler_completion_status (h : Hints) (s s' : State) (hs : KeysOK s) (
 after the abandoned operation (deadline 34) cancelled it — the earlier deadline wins — and removes the worker. -/
 example : (run sDemo [.touch h0 60]).workers.length = 0 ∧ (run sDemo [.touch h0 60]).ops.length = 0 ∧
     (run sDemo [.touch h0 60]).tasks.length = 0 := by decide
+
+/-! ## (c) quiescence: the cleanup loop is exhaustive and every callback removes its object -/
+
+/-- **Every callback removes its object and creates none**: the number of workers + operations +
+size-class queues strictly decreases with every cleanup callback (the clock is untouched). -/
+theorem callback_removes_object (h : Hints) (s s' : State) (hs : Reachable s) (e : CleanupEntry)
+    (rest : List CleanupEntry) (hp : popDue s.now s.cleanup = some (e, rest))
+    (hh : callback h (setCleanup s rest) e = .ok s') :
+    s'.workers.length + s'.ops.length + s'.scqs.length < s.workers.length + s.ops.length + s.scqs.length ∧
+    s'.now = s.now :=
+  callback_decreases (kwc_reachable hs) hp hh
+
+/-- **`cleanupFuel` suffices** (termination measure argument): from a reachable state, `enter(now)` with a
+later `now` ends with the clock at `now` and *no* due entry left — every timed failure whose deadline has
+passed has happened, including those armed by earlier callbacks of the same run. -/
+theorem enter_runs_everything_due (h : Hints) (s s' : State) (hs : Reachable s) (now : Nat) (hnow : s.now < now)
+    (hh : enter h s now = .ok s') : s'.now = now ∧ ∀ e ∈ s'.cleanup, now < e.deadline :=
+  enter_exhaustive (kwc_reachable hs) hnow hh
+
+/-- **quiescence_partial.**  In a reachable state whose cleanup queue has run empty, no worker is outside
+`Synchronize`, every worker-created queue still has a worker, and every operation has a waiter or is a
+background-learning operation of an uncompleted task.
+
+Full statement (not proved): after cancelling all streams and blocked `Synchronize` calls and iterating
+`enter` past all deadlines, no workers, no operations other than those of queued background tasks, no
+removable queues and an empty deduplication map remain.  Missing: (i) `Op.waiters` equals the number of
+attached streams (the model lets one client id attach twice, which would leak a waiter), (ii) the
+deduplication map invariant (C03). -/
+theorem quiescence_partial (s : State) (hs : Reachable s) (hempty : s.cleanup = []) :
+    (∀ wk ∈ s.workers, wk.inSync = true) ∧
+    (∀ qq sq, s.scq? qq = some sq → sq.mayBeRemoved = true → ∃ wk ∈ s.workers, wk.scq = qq) ∧
+    (∀ o op, s.op? o = some op → 0 < op.waiters ∨
+      (op.mayExistWithoutWaiters = true ∧ ∃ t, s.task? op.task = some t ∧ t.response = none)) := by
+  have hc := cinv_reachable hs
+  have hno : ∀ k, ¬ hasK s k := by intro k ⟨e, he, _⟩; rw [hempty] at he; cases he
+  refine ⟨?_, ?_, ?_⟩
+  · intro wk hm
+    cases hi : wk.inSync with
+    | true => rfl
+    | false => exact absurd (hc.wOut wk hm hi (by simp [noEx])) (hno _)
+  · intro qq sq e hb
+    rcases hc.scqW qq sq e hb (by simp [noEx]) with h | h
+    · exact h
+    · exact absurd h (hno _)
+  · intro o op e
+    cases hb : op.mayExistWithoutWaiters with
+    | true => exact .inr ⟨rfl, hc.opBg o op e hb⟩
+    | false =>
+      rcases hc.opFg o op e hb (by simp [noEx]) with h | h
+      · exact .inl h
+      · exact absurd h (hno _)
+
+/-- non-vacuity: after the clock passes every deadline of the demo nothing is left at all. -/
+example : (run sDemo [.touch h0 60, .touch h0 200]).cleanup.length = 0 ∧
+    (run sDemo [.touch h0 60, .touch h0 200]).scqs.length = 0 := by decide
 
 /-! ## (d) every sleeper wakes -/
 
